@@ -280,7 +280,7 @@ claim("C01",
       design_ref="DESIGN.md §5 C01")
 
 claim("C02",
-      text="Proved for the Lean model (26 theorems). SimpleDMRS: token-level encode/decode round trip with arbitrary remainder for "
+      text="Proved for the Lean model (27 theorems, incl. c02_pins: the 15 SimpleDMRS lexer token classes, format strings, DMRX tag/attribute names, JSON keys, PENMAN role formats, predicate regexes, Lnk formats, look-ahead sizes and the defaults of all four codecs, 60 constant lists read from the live code). SimpleDMRS: token-level encode/decode round trip with arbitrary remainder for "
            "all option settings and the list API, under the explicit expressibility predicate, and stability of re-encoding; the "
            "F11 hypothesis 'no node of type u' is isolated as _partial, with a counter-example theorem (known finding). "
            "DMRS-JSON: dictionary round trip and dict-level stability. DMRX: tree round trip with no predicate hypothesis "
@@ -291,8 +291,11 @@ claim("C02",
            "(top first, consecutive).",
       note="Compared, not proved: the regex lexer, the text layouts, indent, and the file API. Assumed as parameters and checked by "
            "side oracles: xml.etree, json, penman (up to node order; literal PENMAN text stability is not demanded, graph "
-           "equality each round is), ASCII case mapping. Every tier runs long multi-graph documents (>1024 and >2048 lexer "
-           "tokens) and a purity clause (15 interleaved encode/dumps calls over indent settings and APIs must repeat exactly).",
+           "equality each round is), ASCII case mapping. Every tier runs long multi-graph documents for every codec "
+           "(>1024 and >2048 lexer tokens; >16 KiB and >64 KiB texts through the string, stream and file APIs), a purity clause (15 "
+           "interleaved encode/dumps calls over indent settings and APIs must repeat exactly), an object-churn clause (structures "
+           "rebuilt after others were dropped must encode as before: state keyed by object identity) and non-ASCII predicates, roles, "
+           "property names and values (model comparison guarded where Python's case mapping differs from the ASCII model).",
       technique="Lean 4 proof over executable model + differential correspondence with the Python implementation",
       design_ref="DESIGN.md §5 C02")
 
